@@ -254,9 +254,19 @@ func runC10(w *core.World, r *core.Report) {
 						}
 					case ssa.CallInstruction:
 						n := core.CallName(t)
-						if n == "os.Open" || n == "os.ReadFile" || n == "io/ioutil.ReadFile" || strings.HasSuffix(n, "pgx/v5.Tx.Query") || strings.HasSuffix(n, "pgx/v5.Tx.QueryRow") {
+						if isStoreReadCall(n) {
 							for _, a := range core.CallArgs(t) {
 								if usesFieldNamed(a, "Default") {
+									cut.AddInstr(t.(ssa.Instruction))
+									nd++
+									break
+								}
+							}
+						} else if g := core.StaticCallee(t); g != nil && w.InLib(g) && len(g.Blocks) > 0 && g != be.get {
+							// the scan moved into a helper: an argument carries the Default key and the helper
+							// reads the store with (an element of) that parameter
+							for ai, a := range core.CallArgs(t) {
+								if usesFieldNamed(a, "Default") && helperReadsStoreWithParam(g, ai) {
 									cut.AddInstr(t.(ssa.Instruction))
 									nd++
 									break
@@ -636,4 +646,53 @@ func loopHeader(b *ssa.BasicBlock) *ssa.BasicBlock {
 		}
 	}
 	return best
+}
+
+func isStoreReadCall(n string) bool {
+	return n == "os.Open" || n == "os.ReadFile" || n == "io/ioutil.ReadFile" || strings.HasSuffix(n, "pgx/v5.Tx.Query") || strings.HasSuffix(n, "pgx/v5.Tx.QueryRow")
+}
+
+// helperReadsStoreWithParam: g reads the store (open / read / query) with parameter pi itself or
+// with an element ranged out of it.
+func helperReadsStoreWithParam(g *ssa.Function, pi int) bool {
+	fromParam := func(v ssa.Value) bool {
+		for _, s := range core.Sources(v) {
+			if paramIndex(s) == pi {
+				return true
+			}
+			if ex, ok := s.(*ssa.Extract); ok {
+				if nx, ok := ex.Tuple.(*ssa.Next); ok {
+					if rg, ok := nx.Iter.(*ssa.Range); ok {
+						for _, s2 := range core.Sources(rg.X) {
+							if paramIndex(s2) == pi {
+								return true
+							}
+						}
+					}
+				}
+			}
+			// element of a slice parameter: *(&p[i])
+			if u, ok := s.(*ssa.UnOp); ok && u.Op == token.MUL {
+				if ia, ok := u.X.(*ssa.IndexAddr); ok {
+					for _, s2 := range core.Sources(ia.X) {
+						if paramIndex(s2) == pi {
+							return true
+						}
+					}
+				}
+			}
+		}
+		return false
+	}
+	for _, c := range core.Calls(g) {
+		if !isStoreReadCall(core.CallName(c)) {
+			continue
+		}
+		for _, a := range core.CallArgs(c) {
+			if fromParam(a) {
+				return true
+			}
+		}
+	}
+	return false
 }
